@@ -42,6 +42,19 @@ WHITE = (255, 255, 255, 255)
 # Upper bound of pixels any reader is willing to materialise (guards against
 # absurd declared dimensions in corrupted headers; far above any QR output).
 _MAX_PIXELS = 64 * 1024 * 1024
+# If the amount of raster data contradicts the declared dimensions (already a
+# reported problem) the pixels are still decoded as far as possible - unless the
+# declared image has more pixels than this (a damaged header must not make the
+# reader allocate gigabytes for data that does not exist).
+_MAX_PIXELS_INCONSISTENT = 1 << 20
+
+
+def _skip_inconsistent(r, width, height):
+    if width * height > _MAX_PIXELS_INCONSISTENT:
+        r.problems.append('pixels not decoded: raster data inconsistent with the declared '
+                          '%dx%d pixels' % (width, height))
+        return True
+    return False
 
 
 class Raster:
@@ -482,6 +495,8 @@ def read_png(data):
     if len(raw) != expected:
         problems.append('decompressed image data is %d bytes, expected exactly %d '
                         '(height * (1 + ceil(width * %d / 8)))' % (len(raw), expected, bits_pp))
+        if _skip_inconsistent(r, width, height):
+            return r
 
     # ---- reconstruct scanlines, build pixels -----------------------------------------
     pixels = [[(0, 0, 0, 0)] * width for _ in range(height)]
@@ -656,6 +671,8 @@ def read_pbm(data):
         if len(data) - pos != need:
             problems.append('raster is %d bytes, expected exactly %d (%d rows of %d bytes)'
                             % (len(data) - pos, need, height, rowbytes))
+            if _skip_inconsistent(r, width, height):
+                return r
         if len(body) < need:
             body = body + bytes(need - len(body))
         pixels = []
@@ -675,7 +692,18 @@ def read_pbm(data):
     bad = 0
     need = width * height
     extra = 0
+    in_comment = False
     for c in data[pos:]:
+        # the plain format is read character-wise by the reference implementation
+        # with the same comment rule as the header, so '#' ... end of line is
+        # skipped in the raster as well (noted in info['raster_comments'])
+        if in_comment:
+            in_comment = c not in (0x0a, 0x0d)
+            continue
+        if c == 0x23:
+            in_comment = True
+            r.info['raster_comments'] = True
+            continue
         if c in _PNM_WHITE:
             continue
         if c == 0x30 or c == 0x31:
@@ -691,6 +719,8 @@ def read_pbm(data):
         problems.append('raster: %d illegal characters in total' % bad)
     if len(bits) != need or extra:
         problems.append('raster has %d pixels, expected exactly %d' % (len(bits) + extra, need))
+        if _skip_inconsistent(r, width, height):
+            return r
     bits.extend([0] * (need - len(bits)))
     r.pixels = [[BLACK if bits[y * width + x] else WHITE for x in range(width)]
                 for y in range(height)]
@@ -740,6 +770,8 @@ def read_ppm(data):
     if len(data) - pos != need:
         problems.append('raster is %d bytes, expected exactly %d (%d x %d x 3)'
                         % (len(data) - pos, need, width, height))
+        if _skip_inconsistent(r, width, height):
+            return r
     if len(body) < need:
         body = body + bytes(need - len(body))
     over = 0
@@ -880,6 +912,8 @@ def read_pam(data):
     if len(data) - pos != need:
         problems.append('raster is %d bytes, expected exactly %d (%d x %d x %d x %d)'
                         % (len(data) - pos, need, width, height, depth, bps))
+        if _skip_inconsistent(r, width, height):
+            return r
     if len(body) < need:
         body = body + bytes(need - len(body))
     colour_planes = 3 if kind.startswith('RGB') else 1
@@ -1113,6 +1147,8 @@ def read_xbm(text):
     if len(values) != need:
         problems.append('array has %d bytes, expected exactly %d (%d rows of %d bytes)'
                         % (len(values), need, height, rowbytes))
+        if _skip_inconsistent(r, width, height):
+            return r
     values.extend([0] * (need - len(values)))
     nonzero_padding = False
     padbits = rowbytes * 8 - width
@@ -1298,13 +1334,20 @@ def read_xpm(text):
     rows = strings[1 + ncolors:]
     if len(rows) != height and not (ext and len(rows) > height):
         problems.append('%d pixel lines, expected exactly %d' % (len(rows), height))
+        if _skip_inconsistent(r, width, height):
+            return r
+    wrong_len = [y for y in range(min(height, len(rows))) if len(rows[y]) != width * cpp]
+    for y in wrong_len[:5]:
+        problems.append('pixel line %d has %d characters, expected exactly %d'
+                        % (y, len(rows[y]), width * cpp))
+    if len(wrong_len) > 5:
+        problems.append('%d pixel lines of wrong length in total' % len(wrong_len))
+    if wrong_len and _skip_inconsistent(r, width, height):
+        return r
     pixels = []
     unknown = 0
     for y in range(height):
         s = rows[y] if y < len(rows) else ''
-        if len(s) != width * cpp:
-            problems.append('pixel line %d has %d characters, expected exactly %d'
-                            % (y, len(s), width * cpp))
         row = []
         for x in range(width):
             chars = s[x * cpp:(x + 1) * cpp]
@@ -1482,9 +1525,9 @@ def read_ansi_terminal(text):
 
 _HALF_BLOCKS = {
     ' ': (False, False),          # nothing painted in the foreground colour
-    '▀': (True, False),      # UPPER HALF BLOCK
-    '▄': (False, True),      # LOWER HALF BLOCK
-    '█': (True, True),       # FULL BLOCK
+    '\u2580': (True, False),     # UPPER HALF BLOCK
+    '\u2584': (False, True),     # LOWER HALF BLOCK
+    '\u2588': (True, True),      # FULL BLOCK
 }
 
 
